@@ -1,6 +1,7 @@
 package main
 
 import (
+	"sort"
 	"fmt"
 	"go/ast"
 	"go/constant"
@@ -352,11 +353,27 @@ func (env *Env) callSpec(x *ast.CallExpr, fn *types.Func, spec *FuncSpec, recvEx
 		}
 		pv := pre[m].T
 		si := env.ss().Info(pv.Sort)
+		if (si == nil || si.Kind != KSlice) && ai.expr != nil {
+			// a slice handed over as interface{} (sort.Slice, sort.SliceStable): the callee writes the elements of that slice
+			if at := env.typeOf(ai.expr); at != nil {
+				if _, isSl := at.Underlying().(*types.Slice); isSl {
+					save := env.nosafe
+					env.nosafe = true
+					sv := env.term(env.eval(ai.expr), x.Pos())
+					env.nosafe = save
+					if ssi := env.ss().Info(sv.Sort); ssi != nil && ssi.Kind == KSlice {
+						pv, si = sv, ssi
+					}
+				}
+			}
+		}
 		if si != nil && si.Kind == KSlice {
 			// the callee writes the elements of a slice argument in place (e.g. sort.Strings): same length, new content
 			narr := c.fresh(m+"_post", fmt.Sprintf("(Array Int %s)", si.Elem))
 			ns := env.ss().mkSlice(pv.Sort, narr.S, env.ss().slLen(pv).S, env.ss().slOwn(pv))
-			post[m] = Val{T: ns, GoT: ai.typ}
+			if pre[m].T.Sort == pv.Sort {
+				post[m] = Val{T: ns, GoT: ai.typ}
+			}
 			if ai.expr != nil && isAddressable(ai.expr) {
 				if !env.rootInModifies(ai.expr) {
 					env.safe("frame:call", x.Pos(), env.ss().slOwn(pv), "slice handed to a callee that writes its elements is owned by this call or listed in modifies")
@@ -1308,13 +1325,28 @@ func (env *Env) inlineCall(x *ast.CallExpr, fn *types.Func, key string, recvExpr
 		return Val{}, false
 	}
 	simple := true
+	hasDefer := false
 	ast.Inspect(fi.Decl.Body, func(n ast.Node) bool {
-		switch n.(type) {
-		case *ast.ForStmt, *ast.RangeStmt, *ast.DeferStmt, *ast.GoStmt, *ast.FuncLit, *ast.SelectStmt, *ast.LabeledStmt:
+		switch d := n.(type) {
+		case *ast.ForStmt, *ast.RangeStmt, *ast.GoStmt, *ast.FuncLit, *ast.SelectStmt, *ast.LabeledStmt:
 			simple = false
+		case *ast.DeferStmt:
+			// a deferred plain call (defer f.Close(), defer runtime.UnlockOSThread()) is run at each return path of the
+			// inlined body; deferred closures are not summarised
+			if _, isLit := unparen(d.Call.Fun).(*ast.FuncLit); isLit {
+				simple = false
+			}
+			hasDefer = true
 		}
 		return simple
 	})
+	if hasDefer && fi.Decl.Type.Results != nil {
+		for _, f := range fi.Decl.Type.Results.List {
+			if len(f.Names) > 0 {
+				simple = false // named results and defers: the deferred call could change the results
+			}
+		}
+	}
 	sig, ok := fn.Type().(*types.Signature)
 	if !simple || !ok || sig.Variadic() {
 		return Val{}, false
@@ -1400,6 +1432,15 @@ func (env *Env) inlineCall(x *ast.CallExpr, fn *types.Func, key string, recvExpr
 			}
 		}()
 		outs = c.execBlock(fi.Decl.Body.List, sub)
+		// the body's deferred calls run, last first, where it returns
+		for _, o := range outs {
+			for !o.st.dead && len(o.st.defers) > len(env.st.defers) {
+				i := len(o.st.defers) - 1
+				call := o.st.defers[i]
+				o.st.defers = o.st.defers[:i]
+				c.codeEnv(o.st).eval(call)
+			}
+		}
 	}()
 	c.inlineDepth--
 	c.fi, c.spec, c.named, c.loopOrd, c.callOrd, c.assignOrd, c.siteOrd = sFi, sSpec, sNamed, sLoop, sCall, sAssign, sSite
@@ -1415,6 +1456,9 @@ func (env *Env) inlineCall(x *ast.CallExpr, fn *types.Func, key string, recvExpr
 	}
 	base := len(env.st.hyps)
 	var disj []string
+	// effects of the body on what the caller can see (its variables - through pointers or package-level state - and the
+	// ghost state): each changed item gets one fresh merged value, constrained per return path inside that path's disjunct
+	var live []Out
 	for _, o := range outs {
 		if o.st.dead {
 			continue
@@ -1422,21 +1466,54 @@ func (env *Env) inlineCall(x *ast.CallExpr, fn *types.Func, key string, recvExpr
 		if o.kind != oReturn && !(o.kind == oNormal && sig.Results().Len() == 0) {
 			return Val{}, false
 		}
-		// no visible effect: everything the caller had is unchanged
-		for ob, t := range env.st.vars {
-			if o.st.vars[ob] != t || o.st.vers[ob] != env.st.vers[ob] {
-				return Val{}, false
-			}
-		}
-		for k, v := range env.st.spec {
-			if o.st.spec[k].T != v.T {
-				return Val{}, false
-			}
-		}
 		if len(o.st.defers) != len(env.st.defers) || len(o.st.hyps) < base {
 			return Val{}, false
 		}
+		for ob := range env.st.locs {
+			if o.st.locs[ob] != env.st.locs[ob] {
+				return Val{}, false // pointer locations rebound by the callee: not summarised
+			}
+		}
+		live = append(live, o)
+	}
+	mergedVars := map[types.Object]Term{}
+	var changedVars []types.Object
+	for ob, t := range env.st.vars {
+		for _, o := range live {
+			if o.st.vars[ob] != t || o.st.vers[ob] != env.st.vers[ob] {
+				if o.st.vars[ob].Sort != t.Sort {
+					return Val{}, false
+				}
+				if _, done := mergedVars[ob]; !done {
+					mergedVars[ob] = c.fresh(ob.Name()+"_after_"+fn.Name(), t.Sort)
+					changedVars = append(changedVars, ob)
+				}
+			}
+		}
+	}
+	sort.Slice(changedVars, func(i, j int) bool { return changedVars[i].Pos() < changedVars[j].Pos() })
+	mergedSpec := map[string]Term{}
+	for _, k := range sortedKeys(env.st.spec) {
+		v := env.st.spec[k]
+		for _, o := range live {
+			if o.st.spec[k].T != v.T {
+				if o.st.spec[k].T.Sort != v.T.Sort || v.Loc != nil {
+					return Val{}, false
+				}
+				if _, done := mergedSpec[k]; !done {
+					mergedSpec[k] = c.fresh(k+"_after_"+fn.Name(), v.T.Sort)
+				}
+			}
+		}
+	}
+	for _, o := range live {
 		parts := append([]string(nil), o.st.hyps[base:]...)
+		for _, ob := range changedVars {
+			parts = append(parts, eq(mergedVars[ob].S, o.st.vars[ob].S))
+		}
+		for _, k := range sortedKeys(mergedSpec) {
+			parts = append(parts, eq(mergedSpec[k].S, o.st.spec[k].T.S))
+		}
 		if sig.Results().Len() > 0 {
 			if len(o.st.retVals) != len(res) {
 				return Val{}, false
@@ -1457,6 +1534,13 @@ func (env *Env) inlineCall(x *ast.CallExpr, fn *types.Func, key string, recvExpr
 		env.st.Assume(disj[0])
 	} else {
 		env.st.Assume("(or " + strings.Join(disj, " ") + ")")
+	}
+	for _, ob := range changedVars {
+		env.st.vars[ob] = mergedVars[ob]
+		env.st.vers[ob]++
+	}
+	for k, t := range mergedSpec {
+		env.st.spec[k] = Val{T: t}
 	}
 	c.noteOnce("call to " + key + " (no contract) replaced by a summary computed from its body")
 	switch len(res) {
